@@ -22,6 +22,14 @@ theorem random_translated_pinned : Irismod.Gen.PureRandom.translated =
      "GetRand_seedSum_3(seedSum,seedOS)",
      "GetRand_precision_1()"] := rfl
 
+/-- every rejecting guard (an `if` ending in the return of an error, or in a panic) of the translated functions and of
+the handlers around them, as source text in source order: removing, weakening or reordering one breaks this -/
+theorem random_guards_pinned : Irismod.Gen.PureRandom.guards =
+    ["Keeper.RequestRandom: blockInterval > uint64(math.MaxInt64-currentHeight)",
+     "Keeper.RequestRandom: requestContextID, err := k.RequestService(ctx, consumer, serviceFeeCap); err != nil",
+     "Keeper.RequestService: provider, err := sdk.AccAddressFromBech32(bindings[prng.Intn(len(bindings))].Provider); err != nil",
+     "msgServer.RequestRandom: request, err := m.Keeper.RequestRandom( ctx, consumer, msg.BlockInterval, msg.Oracle, msg.ServiceFeeCap, ); err != nil"] := rfl
+
 /-- the seed sum of `GetRand`, composed from the translated assignments in source order (`hBH`, `hTI`, `hOS`: the
 digests of block hash, initiator and oracle seed as integers) -/
 def seedSum (t hBH hTI hOS : Int) (oracle : Bool) : Option Int :=
